@@ -178,8 +178,8 @@ def catalogue():
             if meta.exists() and patch.exists():
                 m = json.loads(meta.read_text())
                 out.append({"id": f"seed-{d.name}", "kind": "patch", "patch": str(patch),
-                            "props": m.get("detected_by") or [m["property"]],
-                            "expect": "fire" if m.get("detected_by") else "miss-ok",
+                            "props": m.get("detected_by") or m.get("undecided_by") or [m["property"]],
+                            "expect": "fire" if m.get("detected_by") else "no-pass" if m.get("undecided_by") else "miss-ok",
                             "why": m.get("summary", "")})
     refs = VERIF / "refactors"
     if refs.is_dir():
@@ -226,6 +226,9 @@ def run(props_filter=None, ids=None, jobs=None):
                 row["ok"] = not r["fired"] and (v.get("allow_undecided") or not r["undecided"])
             elif expect == "undecided-ok":
                 row["ok"] = not r["fired"]
+            elif expect == "no-pass":
+                # a breaking change that the comparison cannot decide: the check must not pass (REFUTED or UNDECIDED, exit != 0)
+                row["ok"] = bool(r["fired"]) or bool(r["undecided"])
             else:
                 row["ok"] = True
             if not row["ok"]:
@@ -241,8 +244,9 @@ def run(props_filter=None, ids=None, jobs=None):
 
 def summarise(table):
     return {
-        "variants_breaking": sum(1 for r in table if r["expect"] == "fire"),
+        "variants_breaking": sum(1 for r in table if r["expect"] in ("fire", "no-pass")),
         "detected": sum(1 for r in table if r["expect"] == "fire" and r.get("ok")),
+        "breaking_undecided": sum(1 for r in table if r["expect"] == "no-pass" and r.get("ok")),
         "variants_preserving": sum(1 for r in table if r["expect"] in ("silent", "undecided-ok")),
         "silent": sum(1 for r in table if r["expect"] in ("silent", "undecided-ok") and r.get("ok")),
         "skipped": sum(1 for r in table if r["outcome"] == "skipped"),
